@@ -30,6 +30,9 @@ func HostileCrits() []*m.Crit {
 		m.And(m.Leaf("gt", "x", int64(5)), m.Leaf("lt", "x", int64(1))), m.And(m.Leaf("gte", "x", "a"), m.Leaf("lte", "x", int64(1))),
 		m.Or(m.And(x1, m.NotExists("y")), m.Not(m.Leaf("lt", "x", fy))), m.And(m.Func("never"), x1), m.Leaf("eq", "", int64(1)), m.Leaf("eq", "x.", int64(1)), m.Leaf("gt", ".", nil),
 		m.Leaf("eq", "_id", int64(3)), m.Leaf("gt", "_id", nil), m.Leaf("eq", strings.Repeat("a.", 300)+"z", int64(1)), m.Exists(strings.Repeat("n.", 50) + "a"),
+		// a constant bound on a field and-ed with a criteria on the SAME field that has no constant bound (both orders)
+		m.And(m.Leaf("gt", "x", int64(0)), m.In("x", int64(1), int64(2))), m.And(m.In("x", int64(1)), m.Leaf("lte", "x", int64(2))), m.And(x1, m.Exists("x")), m.And(m.Leaf("lt", "x", int64(3)), m.Like("x", "a")),
+		m.And(m.Leaf("gte", "x", int64(1)), m.Contains("x", int64(1))), m.And(m.Leaf("gt", "x", int64(0)), m.Leaf("gt", "x", fy)), m.And(m.Leaf("lte", "x", int64(2)), m.Leaf("gt", "x", nil)), m.And(x1, m.Not(m.In("x", int64(1)))),
 		m.Leaf("eq", "arr.k", int64(1)), m.Contains("arr", map[string]interface{}{"k": int64(1)}), m.Leaf("gt", "arr", []interface{}{map[string]interface{}{"k": int64(0)}}),
 	}
 }
